@@ -248,6 +248,13 @@ def scenarios():
         ev_request('c3', 'server.version', ['c3', '1.4.2']),
         ev_request('c3', 'blockchain.headers.subscribe', []),
         ev_request('c3', 'blockchain.scripthash.subscribe', [sh('A')], tag='sub'), T, T, T])
+    # a new client's headers.subscribe is on its way when the next block arrives: whatever the
+    # reply says, the last header the client holds at the end is the tip
+    out['late-headers-subscribe'] = dict(subs={'c1': ('A',), 'c2': ()}, mempool0=('t1',), script=lambda: [
+        ev_connect('c3'),
+        ev_request('c3', 'server.version', ['c3', '1.4.2']),
+        ev_request('c3', 'blockchain.headers.subscribe', []),
+        ev_state('block(t1)', blocks=extended([('t1',)]), names=()), T, T, T, T])
     return out
 
 
